@@ -9,7 +9,7 @@ RULE = ("Every trace recorded for C04/C05/C06 (edge covers of the TLC state grap
         "argument of every atomic operation actually executed (compiler instrumentation), every plain access to shared "
         "payload / single-owner bookkeeping must be ordered. Vacuity: each atomic site is weakened to relaxed in the "
         "recorded trace and TLC must then report a race (or the site is reported as not carrying a hand-over). The "
-        "same is repeated with the __STDC_NO_ATOMICS__ fallback of atomic.h. A case = one execution; distinct by hash.")
+        "same is repeated with the __STDC_NO_ATOMICS__ fallback of atomic.h (whose traces are also validated against the queue specifications: a fallback macro that returns the wrong value is a defect of that mechanism). A case = one execution; distinct by hash.")
 RULE += (" Design level: MessageQHB.tla / RingBufHB.tla compose the queue specifications with C11HB and TLC checks NoRace "
          "in every interleaving of the bounded configurations under the declared (seq_cst) orders, and its violation with a "
          "hand-over site relaxed.")
@@ -99,14 +99,14 @@ def run(run):
         cfgs = [("t212", (1, 2, 2, 3)), ("i222", (2, 2, 2, 4))] if light else None
         if light and variant != "c11":
             cfgs = cfgs[:1]
-        trs = c04.run_mq(run, exe, cfgs=cfgs, nrandom=(200 if variant == "c11" else 60) if light else None, tagp=variant + "-", validate=(variant == "c11"))
+        trs = c04.run_mq(run, exe, cfgs=cfgs, nrandom=(200 if variant == "c11" else 60) if light else None, tagp=variant + "-", validate=True)
         for i, t in enumerate(trs):
             hb_check(run, "hb-mq-%s-%d" % (variant, i), t)
         if variant == "c11":
             weaken_sites(run, "messageq", trs[0])
         exe = build_vrt(run, "rb_drv_" + variant, "rb_drv.c", ["librfn/ringbuf.c"], extra_flags=flags)
         trs = c05.run_rb(run, exe, cfgs=(c05.CFGS[:1] if variant != "c11" else c05.CFGS[:4]) if light else None,
-                         nrandom=(300 if variant == "c11" else 80) if light else None, tagp=variant + "-", validate=(variant == "c11"))
+                         nrandom=(300 if variant == "c11" else 80) if light else None, tagp=variant + "-", validate=True)
         for i, t in enumerate(trs):
             hb_check(run, "hb-rb-%s-%d" % (variant, i), t)
         if variant == "c11":
